@@ -11,7 +11,7 @@ import (
 func VerifBufSched() {
 	R := vParam("readers")
 	W := vParam("writers")
-	withClose := vParam("close") == 1
+	closers := vParam("close") // number of goroutines calling Close
 	withDeadline := vParam("deadline") // 0 none, 1 a deadline in the past is set at some moment
 	b := NewBuffer()
 	// the ring is allocated before the goroutines start (growth is sequential code: C06/C07)
@@ -47,7 +47,7 @@ func VerifBufSched() {
 		})
 	}
 	closed := false
-	if withClose {
+	for c := 0; c < closers; c++ {
 		vGo("closer", func() {
 			b.Close()
 			closed = true
